@@ -126,19 +126,32 @@ theorem generalW_nonneg (obs : List (Obs K)) (wxy wuv : Option (List K))
     simp only [Bool.or_eq_false_iff] at hbad
     exact anyNeg_false hbad.1
 
-/-- **`fit_general` returns a weighted least-squares optimum** (whenever it returns). -/
-theorem fitGeneral_optimal (eps : K) (heps : 0 < eps) (obs : List (Obs K)) (wxy wuv : Option (List K))
-    (L : Lin K) (h : fitGeneral eps obs wxy wuv = .ok L)
-    (hlen : (generalW obs wxy wuv).length = obs.length) :
-    ∀ L' : Lin K, SS (generalW obs wxy wuv) obs L ≤ SS (generalW obs wxy wuv) obs L' := by
-  intro L'
+/-- a returned `fit_general` passed the three checks (enough points, valid weights, the
+collinearity guard did not fire) and is what `gsolve` returns on the sums -/
+theorem fitGeneral_ok (eps epsD : K) (obs : List (Obs K)) (wxy wuv : Option (List K)) (L : Lin K)
+    (h : fitGeneral eps epsD obs wxy wuv = .ok L) :
+    ¬ obs.length < 3 ∧ generalBad wxy wuv = false ∧ generalGuard epsD obs wxy wuv = false ∧
+      gsolve eps (gsums (generalW obs wxy wuv) obs) = .ok L := by
   unfold fitGeneral at h
   split at h
   · cases h
+  next hn =>
   split at h
   · cases h
   next hbad =>
-  have hw := generalW_nonneg obs wxy wuv (by simpa using hbad)
+  split at h
+  · cases h
+  next hg => exact ⟨hn, by simpa using hbad, by simpa using hg, h⟩
+
+/-- **`fit_general` returns a weighted least-squares optimum** (whenever it returns). -/
+theorem fitGeneral_optimal (eps epsD : K) (heps : 0 < eps) (obs : List (Obs K))
+    (wxy wuv : Option (List K))
+    (L : Lin K) (h : fitGeneral eps epsD obs wxy wuv = .ok L)
+    (hlen : (generalW obs wxy wuv).length = obs.length) :
+    ∀ L' : Lin K, SS (generalW obs wxy wuv) obs L ≤ SS (generalW obs wxy wuv) obs L' := by
+  intro L'
+  obtain ⟨_, hbad, _, h⟩ := fitGeneral_ok eps epsD obs wxy wuv L h
+  have hw := generalW_nonneg obs wxy wuv hbad
   set ws := generalW obs wxy wuv
   have hs := gsums_eq ws obs hlen
   simp only at hs
